@@ -146,6 +146,42 @@ def steppers():
     return _cache
 
 
+class WouldBlockForever(BaseException):
+    """a blocking acquire of a lock that is held while every actor is a generator of this one thread: in the real node
+    the caller would sleep until the holder releases -- here that is a scheduling decision, not a wait"""
+
+
+class CoopLock:
+    """threading.Lock stand-in for the stepped actors: never blocks the (single) thread of the harness"""
+
+    def __init__(self):
+        self._held = False
+
+    def acquire(self, blocking=True, timeout=-1):
+        if not self._held:
+            self._held = True
+            return True
+        if not blocking:
+            return False
+        raise WouldBlockForever()
+
+    def release(self):
+        if not self._held:
+            raise RuntimeError("release unlocked lock")
+        self._held = False
+
+    def locked(self):
+        return self._held
+
+    def __enter__(self):
+        self.acquire()
+        return self
+
+    def __exit__(self, *a):
+        self.release()
+        return False
+
+
 class PollQueue:
     """write queue stub: get() never blocks (the harness only steps the writer when an item is there)"""
 
@@ -187,6 +223,8 @@ class World:
         assert self.conn.state == peer_mod.PEER_READY
         self.base = len(self.sock.sent)
         self.conn._write_msg_queue = PollQueue()
+        self.conn.write_lock = CoopLock()       # (explicit .acquire() calls must not put the harness thread to sleep)
+        self.deadlock = None
         self.env.select_budget = 10 ** 9
         self.env.pipe_buf = b""
         self.wgen = c["w"](self.conn, self.conn._write_thread)
@@ -211,6 +249,10 @@ class World:
             try:
                 y = next(self.wgen)
             except StopIteration:
+                self.wpos = "dead"
+                return
+            except WouldBlockForever:
+                self.deadlock = "the writer waits for the write lock in a blocking acquire() outside a `with`"
                 self.wpos = "dead"
                 return
             except Exception as e:  # noqa
@@ -254,6 +296,10 @@ class World:
             try:
                 y = next(self.lgen)
             except (StopIteration, StopLoop):
+                self.lpos = "dead"
+                return
+            except WouldBlockForever:
+                self.deadlock = "the I/O loop waits for the write lock in a blocking acquire() while the lock is held"
                 self.lpos = "dead"
                 return
             except Exception as e:  # noqa
